@@ -299,6 +299,58 @@ Section Safety.
   Qed.
 End Safety.
 
+(* ---- histories: the invariant composes over any sequence of installation calls *)
+Section History.
+  Variable sha : bytes -> string.
+  Variable name : string.
+  Variable expected : string.
+
+  Definition hist_post (s0 sf : lstate) : Prop :=
+    exists new, log sf = new ++ log s0 /\
+      (forall b m, In (EExtract b m) new -> sha b = expected /\ m = false) /\
+      (is_installed name sf = true ->
+         is_installed name s0 = true \/ exists b, In (EExtract b false) new /\ sha b = expected) /\
+      (forall m, m <> name -> (In m (index sf) <-> In m (index s0))).
+
+  Lemma step_post srv untar_fails n force nc s :
+    hist_post s (final (install_n sha srv name expected untar_fails n force nc s)).
+  Proof.
+    destruct (install_spec sha srv name expected untar_fails n force nc s) as [O H].
+    destruct (install_n sha srv name expected untar_fails n force nc s) as [st sf|x sf]; cbn [final] in *.
+    - destruct H as [[_ [_ [I ->]]]|[[_ [_ [_ [b [S [_ [L _]]]]]]]|[_ [L N]]]].
+      + exists []. split; [reflexivity|]. split; [intros ? ? []|]. split; [auto|exact O].
+      + exists [EUpgrade true; EExtract b false]. split; [exact L|]. split.
+        * intros b' m [E|[E|[]]]; inversion E; subst; auto.
+        * split; [|exact O]. intros _. right. exists b. split; [right; left; reflexivity|exact S].
+      + exists []. split; [exact L|]. split; [intros ? ? []|]. split; [congruence|exact O].
+    - destruct H as [N [[_ [b [S [_ [_ L]]]]]|[_ L]]].
+      + exists [EExtract b false]. split; [exact L|]. split.
+        * intros b' m [E|[]]; inversion E; subst; auto.
+        * split; [congruence|exact O].
+      + exists []. split; [exact L|]. split; [intros ? ? []|]. split; [congruence|exact O].
+  Qed.
+
+  Lemma hist_post_trans a b c : hist_post a b -> hist_post b c -> hist_post a c.
+  Proof.
+    intros [n1 [L1 [V1 [M1 O1]]]] [n2 [L2 [V2 [M2 O2]]]].
+    exists (n2 ++ n1). split; [rewrite L2, L1, app_assoc; reflexivity|]. split.
+    - intros b' m I. apply in_app_iff in I. destruct I as [I|I]; [apply (V2 _ _ I)|apply (V1 _ _ I)].
+    - split.
+      + intros I. destruct (M2 I) as [I2|[b' [Ib Sb]]].
+        * destruct (M1 I2) as [I1|[b' [Ib Sb]]]; [left; exact I1|].
+          right. exists b'. split; [apply in_app_iff; right; exact Ib|exact Sb].
+        * right. exists b'. split; [apply in_app_iff; left; exact Ib|exact Sb].
+      + intros m N. rewrite (O2 m N). apply O1; exact N.
+  Qed.
+
+  Lemma run_calls_post cs : forall s0, hist_post s0 (run_calls sha name expected cs s0).
+  Proof.
+    induction cs as [|c cs IH]; intros s0; cbn.
+    - exists []. split; [reflexivity|]. split; [intros ? ? []|]. split; [auto|tauto].
+    - eapply hist_post_trans; [apply step_post|apply IH].
+  Qed.
+End History.
+
 (* ---- an honest server leads to a verified installation from every prior state *)
 Section Honest.
   Variable sha : bytes -> string.
